@@ -95,9 +95,9 @@ func kindAlphabet(kind, dmapName string) []c16Tok {
 		return append(payloadToks("ent_valid", "ent_truncated", "ent_short", "ent_keylen_lie"), tokE)
 	case "MFPAYLOAD":
 		return append(payloadToks("mf_valid", "mf_truncated", "mf_wrongtype", "mf_badpart", "mf_notowned", "mf_badkind",
-			"mf_inner_garbage", "mf_inner_empty", "mf_inner_bad_offset", "mf_inner_bad_hkey", "mf_inner_bad_index"), tokE, tokB)
+			"mf_inner_garbage", "mf_inner_empty", "mf_inner_bad_offset", "mf_inner_bad_hkey", "mf_inner_bad_index", "mf_inner_huge_allocated"), tokE, tokB)
 	case "RTPAYLOAD":
-		return append(payloadToks("rt_valid", "rt_truncated", "rt_wrongtype", "rt_badids", "rt_nilroute", "rt_short"), tokE, tokB)
+		return append(payloadToks("rt_valid", "rt_truncated", "rt_wrongtype", "rt_badids", "rt_nilroute", "rt_emptyowners", "rt_short"), tokE, tokB)
 	case "COORD":
 		return []c16Tok{{Cls: "coord", Dyn: "coord"}, {B: "12345", Cls: "nomember"}, lit("0"), lit("-1"), lit("abc"), tokE, {B: c16UHuge, Cls: "maxuint"}}
 	case "CHAN":
@@ -410,7 +410,7 @@ func c16BuildPlan(seed int64, tier string) *c16Plan {
 				sameUnit = false
 			}
 		}
-		for _, pl := range []string{"mf_valid", "mf_inner_bad_hkey", "mf_inner_bad_offset", "mf_inner_bad_index", "mf_inner_empty"} {
+		for _, pl := range []string{"mf_valid", "mf_inner_bad_hkey", "mf_inner_bad_offset", "mf_inner_bad_index", "mf_inner_empty", "mf_inner_huge_allocated"} {
 			ctx := "after=internal.node.movefragment[" + pl + "]"
 			sameUnit = false
 			add(c16Req{Phase: "seq", Cmd: mf.label(), Name: mf.Name, Toks: []c16Tok{{Cls: pl, Dyn: "payload:" + pl}}, Target: target})
@@ -616,7 +616,7 @@ func c16Run(ctx *runCtx) int {
 		"a request counts as unanswered only after 25 s (3 s once a wedge of the same command has been confirmed in this driver) during which every one of 7 (2) fresh control connections to the same member answered PING within 2 s and the driver saw no scheduling stall > 2 s; otherwise the case is re-run once and then recorded as inconclusive",
 		"DM.LOCK is preceded by DM.DEL of the same key so that the lock is free and the deadline argument is never legitimately waited on",
 		"raw streams that do not end on a command boundary are judged by process liveness, a fresh-connection PING and the busy-goroutine probe: after the client closed the connection no goroutine of redcon/olric may stay running/runnable in the same function over 4 snapshots in 1.5 s (also applied after every 200 requests)",
-		"UPDATEROUTING payloads that are well-formed tables with empty owner lists are not sent: installing them is the coordinator's privilege, the later panic is an explicit invariant check",
+		"UPDATEROUTING payloads with an empty owner list for a partition are sent too (they used to crash the member on the next request for that partition; verifyRoutingTable rejects them since fix 0ab7341)",
 	}
 	ctx.rep.Exhaustive = true
 	ctx.rep.Extra("planned_requests", len(plan.Reqs))
